@@ -11,7 +11,7 @@ from __future__ import annotations
 import json
 import os
 
-_state = {"mon": None, "violations": [], "test": None}
+_state = {"mon": None, "violations": [], "test": None, "gridpost": None, "ctx": None}
 
 
 def pytest_configure(config):
@@ -22,10 +22,19 @@ def pytest_configure(config):
             _state["violations"].append({"function": qual, "changes": changes, "test": _state["test"], **info})
 
     _state["mon"] = FunctionMonitor(report).install()
+    if os.environ.get("VMON_PLUGIN_GRIDPOST"):
+        # the C03 postconditions on the Grid / Cube derivation methods, evaluated on whatever the tests call
+        from vmon.core import Ctx
+        from vmon.monitor.gridpost import GridPost
+
+        _state["ctx"] = Ctx("C03", "pytest", 0)
+        _state["gridpost"] = GridPost(lambda: _state["ctx"]).install()
 
 
 def pytest_runtest_setup(item):
     _state["test"] = item.nodeid
+    if _state["ctx"] is not None:
+        _state["ctx"].item = ["pytest", item.nodeid]
 
 
 def pytest_sessionfinish(session, exitstatus):
@@ -33,7 +42,12 @@ def pytest_sessionfinish(session, exitstatus):
     if mon is None:
         return
     mon.uninstall()
+    extra = {}
+    if _state["gridpost"] is not None:
+        _state["gridpost"].uninstall()
+        d = _state["ctx"].dump()
+        extra["gridpost"] = {"evaluations": d["evaluations"], "counters": d["counters"], "violations": d["violations"], "contracts": _state["gridpost"].counters()}
     out = os.environ.get("VMON_PLUGIN_OUT")
     if out:
         with open(out, "w") as f:
-            json.dump({"monitored_calls": sum(mon.calls.values()), "calls": mon.calls, "violations": _state["violations"]}, f)
+            json.dump({"monitored_calls": sum(mon.calls.values()), "calls": mon.calls, "violations": _state["violations"], **extra}, f, default=str)
